@@ -49,6 +49,9 @@ def run_task(task):
             if status == "raise":
                 e = payload
                 ctx.oblige(f"{prefix}/noexc:{e.kind}@{e.loc or '?'}", False, (), "noexc", {"msg": e.msg})
+            if status == "unsupported":
+                # checker error of the scenario; the obligations emitted before it are still discharged and reported
+                out["error"] = out["error"] or f"Unsupported: {payload}"
             # frame of the scenario inputs: cells created by Session.tensor must not have been updated in place
             for (nm, cell, orig) in ctx.ghost.get("input_cells", []):
                 if cell.val is not orig:
